@@ -14,14 +14,14 @@ import (
 
 // Mutant: a deliberate property-breaking change used to test the checker itself (must-fail corpus).
 type Mutant struct {
-	Name     string `json:"name"`
-	Property string `json:"property"`
-	File     string `json:"file"`
-	Old      string `json:"old"`
-	New      string `json:"new"`
-	Diff     string `json:"diff"` // alternatively a patch file under mustfail/
-	Note     string `json:"note"`
-	SkipBuild bool  `json:"skip_build"`
+	Name      string `json:"name"`
+	Property  string `json:"property"`
+	File      string `json:"file"`
+	Old       string `json:"old"`
+	New       string `json:"new"`
+	Diff      string `json:"diff"` // alternatively a patch file under mustfail/
+	Note      string `json:"note"`
+	SkipBuild bool   `json:"skip_build"`
 }
 
 func copyTree(src, dst string) error {
